@@ -1,7 +1,7 @@
 """C13 — Quadtree enumeration and tile counts are consistent and match what is visited."""
 PROPERTY = "C13"
 LEVEL = "other"
-CONTRACT_MODULES = ["contracts.specfuns", "contracts.lemmas_desc", "contracts.pyramid"]
+CONTRACT_MODULES = ["contracts.specfuns", "contracts.lemmas_desc", "contracts.pyramid", "contracts.parallel", "contracts.walk", "contracts.reducer"]
 FUNCTIONS = [
     "toasty.pyramid.pos_parent",
     "toasty.pyramid.pos_children",
@@ -10,9 +10,12 @@ FUNCTIONS = [
     "toasty.pyramid.tiles_at_depth",
     "toasty.pyramid._postfix_pos",
     "toasty.pyramid.generate_pos",
+    "toasty.pyramid.Pyramid.count_leaf_tiles",
+    "toasty.pyramid.Pyramid.count_live_tiles",
+    "toasty.pyramid.Pyramid.count_operations",
 ]
 LEMMAS = ["desc_child_step", "desc_child_pair", "desc_siblings_disjoint", "desc_levels", "desc_transitive",
-          "desc_root", "pow2_add"]
+          "desc_root", "pow2_add", "ops_plus_leaves_equals_live"]
 SLOW = ("_postfix_pos/yields_seq",)
 TRUSTED_BASE = [
     "pyvc VC generator: python subset semantics as stated in DESIGN.md 2.2 (ints unbounded, floor // and %)",
